@@ -217,6 +217,24 @@ class Check:
             out.extend(r)
         return out
 
+    # ------------------------------------------------------------------ translators
+    def translate(self, name, out_rel, extra_args=()):
+        """Run translate/<name>/main.go on the current /repo sources; writes coq/<out_rel> only when the content changed."""
+        outp = os.path.join(COQ, out_rel)
+        os.makedirs(os.path.dirname(outp), exist_ok=True)
+        cmd = ["go", "run", "main.go", "-repo", REPO, "-out", outp] + list(extra_args)
+        self.checker_cmds.append("cd translate/%s && %s" % (name, " ".join(cmd)))
+        self.obligations += 1
+        try:
+            rc, out = sh(cmd, cwd=os.path.join(ROOT, "translate", name), env=GOENV, timeout=600)
+        except subprocess.TimeoutExpired:
+            rc, out = 1, "timeout"
+        if rc != 0:
+            self.fail_obligation("translate:" + name, "translator %s failed on the current sources (fail-closed): %s" % (name, out[-1000:]))
+            return False
+        self.discharged += 1
+        return True
+
     # ------------------------------------------------------------------ Go
     def go_build(self, name, tags="verif", race=False):
         """Build harness/cmd/<name> against /repo's working tree. Returns binary path or None."""
